@@ -17,6 +17,7 @@ static long long st_cases, st_inconclusive, st_signals_in_calls, st_inj_cases, s
 static long st_by_kind[16];
 static const char *cur = "-";
 
+static volatile long long progress;
 static void viol(const char *symptom, const char *fmt, ...) __attribute__((format(printf, 2, 3)));
 static void viol(const char *symptom, const char *fmt, ...) {
 	char key[200], buf[1200]; va_list ap;
@@ -24,6 +25,11 @@ static void viol(const char *symptom, const char *fmt, ...) {
 	snprintf(key, sizeof key, "call=%s symptom=%s", cur, symptom);
 	if (vh_nviol < vh_max_viol) vh_viol("C19", key, "%s", buf);
 }
+
+/* a call that never comes back is reported by name (no case completed for 40 s) */
+static void *wd_fn(void *a) { long long last = -1; int idle = 0; sigset_t ss; (void)a; sigemptyset(&ss); sigaddset(&ss, SIGUSR1); pthread_sigmask(SIG_BLOCK, &ss, NULL);
+	for (;;) { long long p; struct timespec ts = { 1, 0 }; nanosleep(&ts, NULL); p = __atomic_load_n(&progress, __ATOMIC_RELAXED); if (p != last) { last = p; idle = 0; } else if (++idle >= 40) { viol("never-returns", "the call did not return within 40 s of the last completed case (signals handled so far: %ld)", (long)sig_count); fflush(stdout); _exit(0); } }
+	return NULL; }
 
 /* ---------------- signal storm ---------------- */
 typedef struct { pthread_t target; volatile int stop; vh_rng r; int max; long sent; int min_us, max_us; } Storm;
@@ -157,7 +163,7 @@ static int semvalue(const char *name) {        /* exact counter through a raw ha
 static void inj_case(int id, long k, int burst, uint64_t seed) {
 	char name[96]; static unsigned long u; long before;
 	snprintf(name, sizeof name, "%s-inj-%lu", prefix, ++u);
-	st_inj_cases++;
+	st_inj_cases++; __atomic_add_fetch(&progress, 1, __ATOMIC_RELAXED);
 	w_reset();
 	switch (id) {
 	case W_CLOCK_NANOSLEEP: case W_NANOSLEEP: {
@@ -276,13 +282,14 @@ int main(int argc, char **argv) {
 	memset(&sa, 0, sizeof sa); sa.sa_handler = on_sig; sigemptyset(&sa.sa_mask); sa.sa_flags = 0;   /* no SA_RESTART */
 	sigaction(SIGUSR1, &sa, NULL);
 	p_libsys_init();
+	{ pthread_t wd; pthread_create(&wd, NULL, wd_fn, NULL); }
 	if (!strcmp(mode, "signals")) {
 		for (i = 0; i < n && vh_nviol < vh_max_viol; i++) {
 			int kind = (int)(i % 4), tries, hit = 0;
 			for (tries = 0; tries < 4 && !hit; tries++) {
 				if (kind == 0) hit = real_sleep(&r); else if (kind == 1) hit = real_sem(&r, 0); else if (kind == 2) hit = real_sem(&r, 1); else hit = real_sock(&r);
 			}
-			st_cases++; if (hit) st_signals_in_calls++; else st_inconclusive++;
+			st_cases++; __atomic_add_fetch(&progress, 1, __ATOMIC_RELAXED); if (hit) st_signals_in_calls++; else st_inconclusive++;
 		}
 	} else {
 		static const int ids[] = { W_CLOCK_NANOSLEEP, W_NANOSLEEP, W_SEM_WAIT, W_SEM_OPEN, W_SHM_OPEN, W_POLL, W_CONNECT, W_ACCEPT, W_RECV, W_SEND, W_RECVFROM, W_SENDTO };
